@@ -629,7 +629,7 @@ func (g *G) result(meth *m.Method) {
 	case rk == 2 && g.p.ResultTypes && len(g.resultTypes()) > 0:
 		name := rapid.SampledFrom(g.resultTypes()).Draw(t, "resulttype")
 		if g.p.Collections && rapid.IntRange(0, 3).Draw(t, "collection") == 0 &&
-			!(typeHasInlineObject(g.d.TypeByName(name)) && g.avoid("C01-collection-of-result-type-with-inline-object")) {
+			!(typeHasInlineObjectDeep(g.d, g.d.TypeByName(name), map[string]bool{}) && g.avoid("C01-collection-of-result-type-with-inline-object")) {
 			name = g.collectionOf(name)
 			g.feat("collection-result")
 		}
